@@ -154,11 +154,12 @@ pub fn check_code(code: &[u8]) -> Result<Option<Facts>, Verdict> {
 
 /// `size_limit`: value size limit of the VM configuration (None = default).
 pub fn check_code_with(code: &[u8], size_limit: Option<usize>) -> Result<Option<Facts>, Verdict> {
-    check_code_cfg(code, size_limit, false)
+    check_code_cfg(code, size_limit, false, None)
 }
 
-/// `tight`: iteration limit 1 and fork limit 1.
-pub fn check_code_cfg(code: &[u8], size_limit: Option<usize>, tight: bool) -> Result<Option<Facts>, Verdict> {
+/// `tight`: iteration limit 1 and fork limit 1. `poll`: the analysis runs under a watchdog that is polled every that
+/// many iterations and never says stop (None = the lazy watchdog, which is practically never polled).
+pub fn check_code_cfg(code: &[u8], size_limit: Option<usize>, tight: bool, poll: Option<usize>) -> Result<Option<Facts>, Verdict> {
     let accesses = literal_accesses(code);
     if accesses.is_empty() {
         return Ok(None);
@@ -195,7 +196,10 @@ pub fn check_code_cfg(code: &[u8], size_limit: Option<usize>, tight: bool) -> Re
     if required.is_empty() {
         return Ok(None);
     }
-    let o = analyze(code, cfg, &Vec::new(), lazy());
+    let o = match poll {
+        None => analyze(code, cfg, &Vec::new(), lazy()),
+        Some(k) => analyze(code, cfg, &Vec::new(), crate::obs::CountingWatchdog::new(k, None)),
+    };
     if o.class != Class::Ok {
         return Ok(None); // premise "a successful analysis" does not hold
     }
@@ -212,9 +216,10 @@ pub fn check_code_cfg(code: &[u8], size_limit: Option<usize>, tight: bool) -> Re
             };
             return Err(Verdict {
                 key: format!(
-                    "missed:{}:{size_class}{}",
+                    "missed:{}:{size_class}{}{}",
                     if *is_write { "write" } else { "read" },
-                    size_limit.map(|l| format!(":size-limit-{l}")).unwrap_or_default()
+                    size_limit.map(|l| format!(":size-limit-{l}")).unwrap_or_default(),
+                    poll.map(|_| ":monitored").unwrap_or_default()
                 ),
                 what: format!(
                     "the {} at offset {off} uses the literal key 0x{} but the layout has no entry there (indices: {:?})",
@@ -280,12 +285,28 @@ impl Check for C06 {
             // tight exploration limits: an access that was executed must still be witnessed
             ctx.count("evaluations", 1);
             ctx.count("tight_limit_runs", 1);
-            if let Err(v) = check_code_cfg(&code, None, true) {
+            if let Err(v) = check_code_cfg(&code, None, true, None) {
                 ctx.violation(
                     format!("{}:tight-limits", v.key),
                     format!("{} [{seq:?} = {} with iteration and fork limit 1]", v.what, hex(&code)),
                     json!({"bytes": hex(&code), "tight": true}),
                 );
+            }
+            // a watchdog that is really polled (and never stops anything) must not change what is reported
+            if ix.len() <= 3 {
+                for poll in [1usize, 2, 3, 7] {
+                    ctx.count("evaluations", 1);
+                    ctx.count("monitored_runs", 1);
+                    match check_code_cfg(&code, None, false, Some(poll)) {
+                        Ok(Some(_)) => ctx.distinct("nontrivial", crate::util::h64(&(&code, "poll", poll))),
+                        Ok(None) => {}
+                        Err(v) => ctx.violation(
+                            v.key,
+                            format!("{} [{seq:?} = {} under a never-stopping watchdog polled every {poll} iteration(s)]", v.what, hex(&code)),
+                            json!({"bytes": hex(&code), "poll": poll}),
+                        ),
+                    }
+                }
             }
             // small value-size limits: culling must never remove the witness of an access
             if ix.len() <= 3 {
@@ -312,7 +333,7 @@ impl Check for C06 {
              boundary keys (1, 5, 10000, 2^64, 2^64+1, 2^128, 2^255, 2^256-1, the EIP-1967 slot, keccak(\"a\")-1), SLOAD/SSTORE with the \
              operand left on / taken from the stack for two keys, and context tokens (conditional jump to a label, JUMPDEST, STOP, \
              REVERT, POP, CALLVALUE, a mask, DUP1), writes of 3- and 5-node values; sequences <= 3 additionally under value size limits \
-             1..6 (culling at the limit must never remove the witness of an access). Premise from the tool (offset executed in some stored state, or the VM's main loop made exactly as many iterations as the \
+             1..6 (culling at the limit must never remove the witness of an access) and under a never-stopping watchdog polled every 1, 2, 3, 7 iterations. Premise from the tool (offset executed in some stored state, or the VM's main loop made exactly as many iterations as the \
              reference EVM's path tree has steps) and from the reference \
              EVM (the access does not fault); when permissive analyze() succeeds every such key that is not keccak(n), n < 10000, must \
              be the index of an entry, compared as a 256-bit word. non-trivial = program with at least one required key; distinct by content",
@@ -335,7 +356,8 @@ impl Check for C06 {
         println!("analysis: {}", o.json());
         let limit = replay["case"]["size_limit"].as_u64().map(|l| l as usize);
         let tight = replay["case"]["tight"].as_bool().unwrap_or(false);
-        match check_code_cfg(&code, limit, tight) {
+        let poll = replay["case"]["poll"].as_u64().map(|l| l as usize);
+        match check_code_cfg(&code, limit, tight, poll) {
             Ok(_) => false,
             Err(v) => {
                 println!("observed: {}: {}", v.key, v.what);
